@@ -69,8 +69,17 @@ Proof.
   - intros e He. rewrite forallb_forall in H. specialize (H e He). apply negb_true_iff in H; auto.
 Qed.
 
+Lemma check_cut_sound tddl r evs : check_cut tddl r evs = true -> C18_cut_hold tddl r evs.
+Proof. unfold check_cut, C18_cut_hold. intros H. apply andb_true_iff in H as [Hc H].
+  split. { apply (list_eqb_sound _ event_eqb_sound); auto. }
+  destruct tddl.
+  - apply andb_true_iff in H as [H1 H2]. split.
+    + destruct (run_depth false (strip_sep evs)) as [dp|]; [exists dp; auto|discriminate].
+    + intros e b i Hin. rewrite forallb_forall in H2. specialize (H2 _ Hin). simpl in H2. apply Bool.eqb_prop in H2; auto.
+  - intros e He. rewrite forallb_forall in H. specialize (H e He). apply negb_true_iff in H; auto. Qed.
+
 Lemma check_C18_sound i o : check_C18 i o = true -> C18_holds i o.
-Proof. destruct i as [[d c] r]. apply check_events_sound. Qed.
+Proof. destruct i as [[d c] r]. unfold check_C18, C18_holds. destruct (r_cut r); [apply check_cut_sound|apply check_events_sound]. Qed.
 
 (* ------------------------------------------------------------------ B. the grammar, inductively *)
 Lemma framed_iff b l : framed b l <-> run_depth b l = Some false.
@@ -505,13 +514,141 @@ Proof.
     pose proof (steps_mf false (r_steps r) 0%N (r_init_empty r) (or_intror eq_refl) e Hin). congruence.
 Qed.
 
-Theorem C18_main_thm d c r : table_wf d = true -> C18_holds (d, c, r) (offline_chunks d c r).
-Proof. intros Hwf. unfold C18_holds. apply abs_holds. apply (T_offline d Hwf). Qed.
+Theorem complete_thm d c r : table_wf d = true ->
+  C18_events_hold (effective_tddl d c) (c_per_mig c) r (tokenize d (offline_chunks d c r)).
+Proof. intros Hwf. apply abs_holds. apply (T_offline d Hwf). Qed.
+
+(* ------------------------------------------------------------------ H'. a run cut short by an exception *)
+Definition wrap_open (b:bool) (l:list event) : list event := if b then Begin :: l else l.
+Fixpoint abs_steps_cut (tddl inner:bool) (k:N) (empty:bool) (steps:list ostep) : list event :=
+  match steps with
+  | [] => []
+  | [s] => wrap_open inner (abs_core tddl k empty s)
+  | s :: r => wrap inner (abs_core tddl k empty s) ++ abs_steps_cut tddl inner (N.succ k) (os_empty_after s) r
+  end.
+Definition abs_cut (tddl pm:bool) (r:run) : list event :=
+  wrap_open (tddl && negb pm) (abs_steps_cut tddl (tddl && pm) 0 (r_init_empty r) (r_steps r)).
+
+Section RefineCut.
+  Variable d : dialect.
+  Hypothesis Hwf : table_wf d = true.
+  Notation T := (T d).
+
+  Lemma T_open b body : T (open_ctx d b body) = wrap_open (match b with BtBeginCommit => true | _ => false end) (T body).
+  Proof. destruct b; simpl; auto. rewrite (T_app d), (T_begin d Hwf). reflexivity. Qed.
+
+  Lemma T_core tddl pm k empty s : T (step_core d (mkMcfg tddl pm false true) k empty s) = abs_core tddl k empty s.
+  Proof. unfold step_core. cbn [m_tddl]. rewrite !(T_app d), (T_items d Hwf), (T_versions d Hwf). unfold abs_core.
+    replace (T (if empty then exec_chunk d (RCreate k) else [])) with (if empty then [CreateVT k] else []).
+    2:{ destruct empty; auto. rewrite (T_exec d Hwf); auto. }
+    reflexivity. Qed.
+
+  Lemma T_step tddl pm k empty s :
+    T (step_chunks d (mkMcfg tddl pm false true) k empty s) = wrap (tddl && pm) (abs_core tddl k empty s).
+  Proof. pose proof (T_steps d Hwf tddl pm [s] k empty) as H. cbn [steps_chunks abs_steps] in H.
+    rewrite (T_app d) in H. destruct (os_empty_after s).
+    - (* the trailing DROP of the one-step run: peel it off *)
+      unfold step_chunks. rewrite (T_with_ctx d Hwf), bt_as_sql. cbn [m_tddl].
+      change (T (_ ++ _)) with (T (step_core d (mkMcfg tddl pm false true) k empty s)). rewrite T_core.
+      destruct tddl, pm; reflexivity.
+    - simpl in H. rewrite !app_nil_r in H. exact H. Qed.
+
+  Lemma T_steps_cut tddl pm steps : forall k empty,
+    T (steps_chunks_cut d (mkMcfg tddl pm false true) k empty steps) = abs_steps_cut tddl (tddl && pm) k empty steps.
+  Proof. induction steps as [|s steps IH]; intros k empty; [reflexivity|].
+    destruct steps as [|s2 steps].
+    - cbn [steps_chunks_cut abs_steps_cut]. rewrite T_open, bt_as_sql, T_core. destruct tddl, pm; reflexivity.
+    - change (steps_chunks_cut d (mkMcfg tddl pm false true) k empty (s :: s2 :: steps))
+        with (step_chunks d (mkMcfg tddl pm false true) k empty s ++
+              steps_chunks_cut d (mkMcfg tddl pm false true) (N.succ k) (os_empty_after s) (s2 :: steps)).
+      change (abs_steps_cut tddl (tddl && pm) k empty (s :: s2 :: steps))
+        with (wrap (tddl && pm) (abs_core tddl k empty s) ++
+              abs_steps_cut tddl (tddl && pm) (N.succ k) (os_empty_after s) (s2 :: steps)).
+      rewrite (T_app d), IH, T_step. reflexivity. Qed.
+
+  Lemma T_offline_cut c r : T (offline_chunks_cut d c r) = abs_cut (effective_tddl d c) (c_per_mig c) r.
+  Proof. unfold offline_chunks_cut, abs_cut. change (init_external true (c_conn_in_txn c)) with false.
+    rewrite T_open, bt_as_sql, T_steps_cut. destruct (effective_tddl d c), (c_per_mig c); reflexivity. Qed.
+End RefineCut.
+
+Definition Pl (t:event*nat*bool) : Prop := snd t = negb (is_auto (fst (fst t))).
+Lemma P_Pl lo hi sk t : P lo hi sk t -> Pl t.
+Proof. destruct t as [[e b] i]. unfold P, Pl. simpl. tauto. Qed.
+
+Lemma chunk_seg inner k empty s b : exists n, Seg (negb inner) b (wrap inner (abs_core true k empty s)) n Pl.
+Proof. destruct inner; simpl.
+  - exists (S (nauto (os_body s))). pose proof (Seg_wrap _ _ _ _ (core_seg k empty s (S b))) as (A1 & A2 & A3).
+    split; [|split]; auto. eapply Forall_impl; [|exact A3]. intros t. apply P_Pl.
+  - exists (nauto (os_body s)). destruct (core_seg k empty s b) as (A1 & A2 & A3).
+    split; [|split]; auto. eapply Forall_impl; [|exact A3]. intros t. apply P_Pl. Qed.
+
+Lemma cut_steps inner steps : forall k empty b,
+  (exists dp, run_depth (negb inner) (abs_steps_cut true inner k empty steps) = Some dp) /\
+  Forall Pl (ann b (negb inner) (abs_steps_cut true inner k empty steps)).
+Proof. induction steps as [|s steps IH]; intros k empty b.
+  - simpl. split; [eexists; reflexivity|constructor].
+  - destruct steps as [|s2 steps].
+    + cbn [abs_steps_cut]. destruct inner; simpl.
+      * destruct (core_seg k empty s (S b)) as (A1 & A2 & A3). split; [exists true; auto|].
+        eapply Forall_impl; [|exact A3]. intros t. apply P_Pl.
+      * destruct (core_seg k empty s b) as (A1 & A2 & A3). split; [exists true; auto|].
+        eapply Forall_impl; [|exact A3]. intros t. apply P_Pl.
+    + change (abs_steps_cut true inner k empty (s :: s2 :: steps))
+        with (wrap inner (abs_core true k empty s) ++ abs_steps_cut true inner (N.succ k) (os_empty_after s) (s2 :: steps)).
+      destruct (chunk_seg inner k empty s b) as (n & C1 & C2 & C3).
+      destruct (IH (N.succ k) (os_empty_after s) (b + n)%nat) as ((dp & I1) & I2).
+      split.
+      * exists dp. rewrite run_depth_app, C1. exact I1.
+      * rewrite ann_app, C2. simpl. apply Forall_app. split; auto. Qed.
+
+Lemma steps_cut_mf steps : forall k empty, marker_free (abs_steps_cut false false k empty steps).
+Proof. induction steps as [|s steps IH]; intros k empty; [apply mf_nil|]. destruct steps as [|s2 steps].
+  - simpl. apply core_mf. right; reflexivity.
+  - change (abs_steps_cut false false k empty (s :: s2 :: steps))
+      with (wrap false (abs_core false k empty s) ++ abs_steps_cut false false (N.succ k) (os_empty_after s) (s2 :: steps)).
+    apply mf_app; [apply core_mf; right; reflexivity|apply IH]. Qed.
+
+Lemma content_open b l : filter content (wrap_open b l) = filter content l.
+Proof. destruct b; reflexivity. Qed.
+Lemma content_core tddl k empty s : filter content (abs_core tddl k empty s) = step_content k empty s.
+Proof. unfold abs_core, step_content. rewrite filter_app. simpl. rewrite filter_app, content_body.
+  rewrite (content_all (repeat _ _)). 2:{ intros e He. apply repeat_spec in He. subst. reflexivity. }
+  destruct empty; reflexivity. Qed.
+Lemma content_steps_cut tddl inner steps : forall k empty,
+  filter content (abs_steps_cut tddl inner k empty steps) = expected_cut k empty steps.
+Proof. induction steps as [|s steps IH]; intros k empty; [reflexivity|]. destruct steps as [|s2 steps].
+  - cbn [abs_steps_cut expected_cut]. rewrite content_open, content_core, app_nil_r. reflexivity.
+  - change (abs_steps_cut tddl inner k empty (s :: s2 :: steps))
+      with (wrap inner (abs_core tddl k empty s) ++ abs_steps_cut tddl inner (N.succ k) (os_empty_after s) (s2 :: steps)).
+    rewrite filter_app, content_wrap, content_core, IH. reflexivity. Qed.
+
+Lemma abs_cut_holds tddl pm r evs : strip_sep evs = abs_cut tddl pm r -> C18_cut_hold tddl r evs.
+Proof.
+  intros HE. unfold C18_cut_hold. rewrite HE. split.
+  { rewrite <- content_strip, HE. unfold abs_cut. rewrite content_open. apply content_steps_cut. }
+  destruct tddl.
+  - unfold abs_cut. cbn [andb]. destruct pm; cbn [negb wrap_open].
+    + destruct (cut_steps true (r_steps r) 0%N (r_init_empty r) 0%nat) as (E & F). split; auto.
+      intros e b i Hin. rewrite Forall_forall in F. apply (F _ Hin).
+    + destruct (cut_steps false (r_steps r) 0%N (r_init_empty r) 1%nat) as (E & F). split; auto.
+      intros e b i Hin. rewrite Forall_forall in F. apply (F _ Hin).
+  - intros e He. destruct (is_marker e) eqn:Hm; auto. exfalso.
+    assert (Hin : In e (strip_sep evs)).
+    { unfold strip_sep. apply filter_In. split; auto. destruct e; simpl in *; try discriminate; auto. }
+    rewrite HE in Hin. unfold abs_cut in Hin. cbn [andb wrap_open] in Hin.
+    pose proof (steps_cut_mf (r_steps r) 0%N (r_init_empty r) e Hin). congruence.
+Qed.
+
+Theorem cut_thm d c r : table_wf d = true -> C18_cut_hold (effective_tddl d c) r (tokenize d (offline_chunks_cut d c r)).
+Proof. intros Hwf. apply (abs_cut_holds _ (c_per_mig c)). apply (T_offline_cut d Hwf). Qed.
+
+Theorem C18_main_thm d c r : table_wf d = true -> C18_holds (d, c, r) (offline_out d c r).
+Proof. intros Hwf. unfold C18_holds, offline_out. destruct (r_cut r); [apply cut_thm|apply complete_thm]; auto. Qed.
 
 (* ------------------------------------------------------------------ I. the clauses one by one (statements of Properties/C18.v) *)
 Lemma main_tddl d c r : table_wf d = true -> effective_tddl d c = true ->
   C18_events_hold true (c_per_mig c) r (offline_events d c r).
-Proof. intros Hwf Ht. pose proof (C18_main_thm d c r Hwf) as H. unfold C18_holds in H. rewrite Ht in H. exact H. Qed.
+Proof. intros Hwf Ht. pose proof (complete_thm d c r Hwf) as H. rewrite Ht in H. exact H. Qed.
 
 Lemma grammar_thm d c r : table_wf d = true -> effective_tddl d c = true ->
   framed false (strip_sep (offline_events d c r)).
@@ -542,14 +679,14 @@ Proof. intros Hwf Ht e b i Hi. pose proof (main_tddl d c r Hwf Ht) as H.
 
 Lemma no_markers_thm d c r : table_wf d = true -> effective_tddl d c = false ->
   forall e, In e (offline_events d c r) -> is_marker e = false.
-Proof. intros Hwf Ht. pose proof (C18_main_thm d c r Hwf) as H. unfold C18_holds in H. rewrite Ht in H.
+Proof. intros Hwf Ht. pose proof (complete_thm d c r Hwf) as H. rewrite Ht in H.
   destruct H as (_ & H). exact H. Qed.
 
 Lemma content_thm d c r : table_wf d = true -> filter content (offline_events d c r) = expected_content r.
-Proof. intros Hwf. pose proof (C18_main_thm d c r Hwf) as H. unfold C18_holds, C18_events_hold in H. apply H. Qed.
+Proof. intros Hwf. pose proof (complete_thm d c r Hwf) as H. unfold C18_events_hold in H. apply H. Qed.
 
 Lemma table_thm (ds:list (option dialect)) : forallb table_wf_opt ds = true ->
-  forall d c r, In (Some d) ds -> C18_holds (d, c, r) (offline_chunks d c r).
+  forall d c r, In (Some d) ds -> C18_holds (d, c, r) (offline_out d c r).
 Proof. intros H d c r Hin. rewrite forallb_forall in H. apply C18_main_thm. apply (H (Some d) Hin). Qed.
 
 Lemma conn_state_thm d tddl pm b e r :
